@@ -169,6 +169,35 @@ func recordWriters(c *Ctx) []recWriter {
 			t, _ := r.MarshalText()
 			return r.Write, t
 		}},
+		// a FIRST field longer than a 4096-byte buffer (a buffered writer passes such a write straight through)
+		{"fasta-longname", func() (func(io.Writer) error, []byte) {
+			r := &fasta.Fasta{Name: c.text([]int{4094, 4095, 4096, 4200, 8200}[c.rng.Intn(5)], ""), Sequence: c.text(c.rng.Intn(100), ">")}
+			t, _ := r.MarshalText()
+			return r.Write, t
+		}},
+		{"fastq-longname", func() (func(io.Writer) error, []byte) {
+			r := &fastq.Fastq{Name: c.text([]int{4094, 4095, 4096, 4200}[c.rng.Intn(4)], ""), Sequence: []byte("ACGT"), Quals: []byte("IIII")}
+			t, _ := r.MarshalText()
+			return r.Write, t
+		}},
+		{"sam-longname", func() (func(io.Writer) error, []byte) {
+			r := c.samRec()
+			r.Qname = "q" + string(c.text([]int{4094, 4095, 4096, 4200}[c.rng.Intn(4)], ""))
+			t, _ := r.MarshalText()
+			return r.Write, t
+		}},
+		{"bed-longname", func() (func(io.Writer) error, []byte) {
+			r := c.bedRec(3 + c.rng.Intn(10))
+			r.Chrom = "c" + string(c.text([]int{4094, 4095, 4096, 4200}[c.rng.Intn(4)], ""))
+			t, _ := r.MarshalText()
+			return r.Write, t
+		}},
+		{"newick-longname", func() (func(io.Writer) error, []byte) {
+			r := c.randTree(1 + c.rng.Intn(3))
+			r.Name = string(c.text([]int{4094, 4095, 4096, 4200}[c.rng.Intn(4)], ""))
+			t, _ := r.MarshalText()
+			return r.Write, t
+		}},
 		{"fastq", func() (func(io.Writer) error, []byte) { r := c.fastqRec(60); t, _ := r.MarshalText(); return r.Write, t }},
 		{"sam", func() (func(io.Writer) error, []byte) { r := c.samRec(); t, _ := r.MarshalText(); return r.Write, t }},
 		{"bed", func() (func(io.Writer) error, []byte) {
@@ -323,6 +352,9 @@ func genC07(c *Ctx) {
 		reps := c.n(10)
 		if w.name == "fasta-long" {
 			reps = 8
+		}
+		if strings.HasSuffix(w.name, "-longname") {
+			reps = 3
 		}
 		for i := 0; i < reps; i++ {
 			// a second, different record and its text, fixed BEFORE any write fails: after a failed Write the next
